@@ -1,7 +1,7 @@
 """U4n: wait_for_pipeline_processes_and_update_status (brush-core/src/interp.rs): pipeline status, PIPESTATUS, pipefail."""
 from vx.unit import Unit
 from vx.extract import C
-from .common import results_items
+from .common import results_items, runtime_options_item
 
 PROPS = ['C03', 'C02', 'C01']
 HEADER = '#![feature(allocator_api)]\nuse vstd::prelude::*;\nuse vstd::std_specs::convert::*;\nuse std::collections::VecDeque;\nverus! {\n'
@@ -18,6 +18,7 @@ def build(repo, findings):
     u.raw('pub mod ast {\nuse vstd::prelude::*;\n#[verifier::external_body]\npub struct Pipeline { _p: u8 }\n}\n')
     results_items(u, 'C02,C03')
     u.add(rs.item(r'^pub enum ExecutionWaitResult ', 'ExecutionWaitResult').r1(keep_derive=()))
+    runtime_options_item(u)
     u.prelude('exec/pipewait_spec.rs')
     fn = 'wait_for_pipeline_processes_and_update_status'
     f = interp.item(r'^async fn wait_for_pipeline_processes_and_update_status\(', fn).r1().r3().r4()
